@@ -943,7 +943,7 @@ def run(ctx):
     stats["by_tiebreak"] = collections.defaultdict(int)
     stats["by_kind"] = collections.defaultdict(int)
     items = gather(ctx)
-    k = 2 if ctx.quick() else 4
+    k = 2 if ctx.quick() else 3
     tbs = {id(it): tiebreaks(ctx, k) for it in items}
     outcomes = check_specs(ctx, items, lambda it: tbs[id(it)], "c10", stats)
     behaviour_checks(ctx, outcomes, "c10x", stats)
